@@ -82,3 +82,8 @@ reg("C09", "model_checking", "exploration of every (deviation-bounded) iteration
     "interpreters with PYTHONHASHSEED 0..7 (0..39): all RTLIL byte-identical; 231 (1.5k) simulation scenarios are run twice and, for EVERY prefix length k of the history, k steps + reset() + rerun must equal a fresh run "
     "with all signals / memory rows back at their initial contents; build plans on three platforms: prepare twice, archive twice (sorted members, fixed timestamps, insertion-order independent), extract == plan.",
     "Trusted: injection covers sets created with set() in hdl._ir/_xfrm; set displays/comprehensions and other modules are covered by the real hash-seed runs only.")
+reg("C06", "exploration", "bounded-exhaustive enumeration of driver placements and dependency digraphs (x ~80 realisation styles) with an independent set-arithmetic / DFS oracle",
+    "Every placement of up to 3 drivers (logic in top/child/grandchild/sibling x comb/two sync domains, Instance output, IOBuffer input, memory read data) on every bit subset of up to 2 signals, through the Module DSL and raw "
+    "Fragments, and every dependency digraph over 3..6 signal bits realised with bit-precise constructs (bitwise ops, Cat/Slice, Mux data, conditional data) and word-level operators, conditions, LHS part selects and Array "
+    "targets, registers and hierarchy, is built and converted; the raised exception class (DriverConflict / DSL SyntaxError / exactly CombinationalCycle / none) is compared with ground truth.",
+    "Trusted: vf/ref/c06_model.py (dependency rules from the statement: bit-precise vs word-level). Signed operands, Elif chains and don't-care patterns are not in the dependency alphabet.")
